@@ -208,8 +208,8 @@ func H03_caps() {
 					match = true
 				}
 			}
-			if d.seq == "\x7f" && k.Key() == KeyBackspace2 {
-				match = true
+			if d.seq == "\x7f" {
+				match = k.Key() == KeyBackspace2 // a single DEL byte is reported as Backspace2, whatever it is bound to
 			}
 		}
 		// a one-byte capability that is a control byte or DEL is also right as that control key
@@ -326,6 +326,10 @@ func H03_ctrl() {
 				if len(seq) == 1 && seq[0] == b && kc.key != Key(b) {
 					assigned = true
 				}
+			}
+			if b == 0x7f {
+				// whatever the description binds DEL to, a single DEL byte is reported as Backspace2
+				vsymAssert(k.Key() == KeyBackspace2 && k.Modifiers() == ModNone, "a single DEL byte is reported as Backspace2")
 			}
 			if !assigned {
 				vsymAssert(k.Key() == Key(b), "a control byte decodes to the Ctrl-letter key (DEL to Backspace2)")
